@@ -10,6 +10,7 @@ CONSTANTS
   NLook = 1
   NextFirst = TRUE
   EmptyHeadGuard = TRUE
+  GuardBroad = FALSE
   NSync = 1
   SyncHoldsLock = TRUE
 VIEW kview
